@@ -617,9 +617,12 @@ def extra_c20(tier, seed):
             t2, i2 = ar_tour_script(cap)
             text += t2
             info.update(i2)
-        text += ba_random_script(cap, rng, 200 if q else 3000) + ar_random_script(cap, rng, 150 if q else 2000)
+        text += ba_random_script(cap, rng, 200 if q else 3000)
+        if cap <= 255:      # the arrays' capacity parameter is a `Long' (uint8_t): larger capacities cannot be expressed, only the bit array's `unsigned' can
+            text += ar_random_script(cap, rng, 150 if q else 2000)
         return text, info
-    caps = [1, 2, 7, 8, 9, 12, 17, 64, 250, 255] if q else [1, 2, 3, 7, 8, 9, 12, 16, 17, 33, 64, 128, 248, 249, 250, 255]
+    # 300 / 257 / 512: beyond what an 8-bit index can hold (the index type widens with the capacity; an index narrowed to a byte aliases i and i % 256)
+    caps = [1, 2, 7, 8, 9, 12, 17, 64, 250, 255, 300] if q else [1, 2, 3, 7, 8, 9, 12, 16, 17, 33, 64, 128, 248, 249, 250, 255, 256, 257, 300, 512]
     return _run("bits", tier, seed, caps, script, ["BA_cap1", "BA_cap7", "BA_cap8", "BA_cap9", "AR_cap3"] + ([] if q else ["BA_cap12"]), None)
 
 
